@@ -5,6 +5,7 @@ import (
 	"fmt"
 	"math/rand/v2"
 	"os"
+	"os/exec"
 	"path/filepath"
 	"sort"
 	"strings"
@@ -463,10 +464,108 @@ func runC10(r *ev.Run) {
 			r.Sample(map[string]any{"params": desc, "durable_docs": len(durable), "boundaries": pts, "images": len(variants)})
 		}
 	})
+	c10RealCrashes(r)
 	for p, c := range ctl.snapshotCounts() {
 		if strings.HasPrefix(p, "crash:") {
 			r.Count("hook-hits:"+p, c)
 		}
 	}
 	r.Exhaustive = exhaustive
+}
+
+// c10RealCrashes cross-checks the in-process image engine with REAL process deaths: a child process (cmd/storehelper)
+// first makes a few documents durable (Flush + Close), a second child adds more and SIGKILLs itself at the n-th hit of a
+// crash:* point inside its Flush; the parent removes the stale LOCK and applies the same reopen oracle to the real directory.
+func c10RealCrashes(r *ev.Run) {
+	helper := os.Getenv("VERIF_HELPER")
+	if helper == "" {
+		r.Count("real-crashes:skipped(no helper)", 1)
+		return
+	}
+	points := []string{"crash:flush.create.hybrid", "crash:flush.create.vector", "crash:flush.create.text", "crash:flush.create.metadata", "crash:flush.written",
+		"crash:flush.close.vector", "crash:flush.close.text", "crash:flush.close.metadata", "crash:flush.close.hybrid", "crash:flush.added"}
+	reps := r.Pick(1, 6)
+	p := storeParams{VecKind: "flat", Text: true, Meta: true, Dim: 2, Metric: "l2", CompactionThreshold: 1000, MemtableSizeLimit: 1 << 20, FlushThreshold: 1 << 40}
+	r.Cases("real-crash", reps*len(points), func(ci int, rng *rand.Rand) {
+		point := points[ci%len(points)]
+		dir, err := os.MkdirTemp("", "verif-c10k-*")
+		if err != nil {
+			panic(err)
+		}
+		defer os.RemoveAll(dir)
+		rep := func(sig, what string) {
+			r.ViolationAt("real-crash", ci, sig, fmt.Sprintf("SIGKILL at %s: %s", point, what), nil)
+		}
+		nDur, nPend := 1+rng.IntN(3), 1+rng.IntN(3)
+		// child 1: durable documents 1000.. (a point that is never hit => runs to completion)
+		out, _ := exec.Command(helper, "crash", dir, "no-such-point", "1", fmt.Sprint(nDur), "1000").CombinedOutput()
+		if !strings.Contains(string(out), "CLOSED") {
+			r.Inconclusive("helper could not create the durable prefix")
+			return
+		}
+		// child 2: pending documents 2000.., killed inside its Flush
+		out, _ = exec.Command(helper, "crash", dir, point, "1", fmt.Sprint(nPend), "2000").CombinedOutput()
+		if strings.Contains(string(out), "CLOSED") {
+			r.Inconclusive("crash point not reached in the child: " + point)
+			return
+		}
+		os.Remove(filepath.Join(dir, "LOCK"))
+		durable, ever, pend := map[uint32]bool{}, map[uint32]bool{}, map[uint32]bool{}
+		for i := 0; i < nDur; i++ {
+			durable[uint32(1000+i)], ever[uint32(1000+i)] = true, true
+		}
+		for i := 0; i < nPend; i++ {
+			pend[uint32(2000+i)], ever[uint32(2000+i)] = true, true
+		}
+		img, _ := readImage(dir)
+		s, err := p.open(dir)
+		if err != nil {
+			rep("crash.reopen-fails", "Open failed on the directory a killed process left: "+err.Error())
+			return
+		}
+		defer s.Close()
+		a := searchAllModalities(s, p)
+		if a.Err != nil {
+			rep("crash.search-fails", a.Err.Error())
+			return
+		}
+		missing, foreign := a.check(durable, ever)
+		if len(foreign) > 0 {
+			rep("crash.never-added-id-returned", fmt.Sprint(foreign))
+		}
+		if len(missing) > 0 {
+			rep("crash.durable-document-lost", fmt.Sprintf("durable documents not found: %v", missing))
+		}
+		for name, got := range map[string]map[uint32]bool{"vector": a.Vec, "text": a.Text, "metadata": a.Meta} {
+			n := 0
+			for id := range pend {
+				if got[id] {
+					n++
+				}
+			}
+			if n != 0 && n != len(pend) {
+				rep("crash.partial-segment", fmt.Sprintf("the interrupted segment contributes %d of %d documents to the %s query", n, len(pend), name))
+			}
+			if n != 0 && point != "crash:flush.close.hybrid" && point != "crash:flush.added" {
+				rep("crash.damaged-segment-contributes", fmt.Sprintf("killed at %s (hybrid file not complete yet) but %d documents of that segment are returned by the %s query", point, n, name))
+			}
+		}
+		nd := genStoreDoc(rng, p, 3000, "after")
+		if err := s.AddWithID(nd.ID, nd.Vec, nd.Text, nd.Meta); err == nil {
+			if err := s.Flush(); err != nil {
+				rep("crash.flush-after-reopen-fails", err.Error())
+			}
+		}
+		after, _ := readImage(dir)
+		for n := range after {
+			if _, had := img[n]; !had {
+				if id, ok := segmentIDOf(n); ok && id <= img.maxID() {
+					rep("crash.segment-id-reused", fmt.Sprintf("new file %s reuses id %d", n, id))
+					break
+				}
+			}
+		}
+		r.Count("real-crashes:"+point, 1)
+		r.Eval(true, ev.Digest("kill", point, ci))
+	})
 }
